@@ -9,3 +9,9 @@
 ; numrun_range: base k <= 0 ; step
 (push) (assert (<= k 0)) (assert (unfold_numrun d o k)) (assert (not (numrun_range d o k))) (check-sat) (pop)
 (push) (assert (>= k 0)) (assert (numrun_range d o k)) (assert (unfold_numrun d o (+ k 1))) (assert (not (numrun_range d o (+ k 1)))) (check-sat) (pop)
+; mantcount_bounds
+(push) (assert (<= k 0)) (assert (unfold_mantcount d o k)) (assert (not (mantcount_bounds d o k))) (check-sat) (pop)
+(push) (assert (>= k 0)) (assert (mantcount_bounds d o k)) (assert (unfold_mantcount d o (+ k 1))) (assert (not (mantcount_bounds d o (+ k 1)))) (check-sat) (pop)
+; mantstop_mono: base m = k ; step
+(push) (assert (not (mantstop_mono d o k k))) (check-sat) (pop)
+(push) (assert (<= 0 k)) (assert (<= k m)) (assert (mantstop_mono d o k m)) (assert (unfold_mantstop d o (+ m 1))) (assert (unfold_mantcount d o (+ m 1))) (assert (not (mantstop_mono d o k (+ m 1)))) (check-sat) (pop)
